@@ -636,8 +636,20 @@ def _round_h3_rules(ck, prog):
                 t = expanded(cur.test)
                 # a CONJUNCT of the test is the negated policy: `suspended and not decided` - with `or` the suspension is raised whenever one was recorded
                 conj = cur.test.values if isinstance(cur.test, ast.BoolOp) and isinstance(cur.test.op, ast.And) else ([cur.test] if not isinstance(cur.test, ast.BoolOp) else [])
-                guarded = any(isinstance(c_, ast.UnaryOp) and isinstance(c_.op, ast.Not) and any(w in expanded(c_.operand) for w in ("should_complete", "is_complete", "should_continue"))
-                              for c_ in conj)
+                def neg_policy(c_):
+                    # an odd number of `not` around an expression that (through local names) is the policy call
+                    par_n = 0
+                    while isinstance(c_, ast.UnaryOp) and isinstance(c_.op, ast.Not):
+                        par_n += 1
+                        c_ = c_.operand
+                    if isinstance(c_, ast.Name) and len(loc_defs.get(c_.id, [])) == 1:
+                        inner = loc_defs[c_.id][0]
+                        while isinstance(inner, ast.UnaryOp) and isinstance(inner.op, ast.Not):
+                            par_n += 1
+                            inner = inner.operand
+                        c_ = inner
+                    return par_n % 2 == 1 and isinstance(c_, ast.Call) and any(w in ast.unparse(c_.func) for w in ("should_complete", "is_complete"))
+                guarded = any(neg_policy(c_) for c_ in conj)
             cur = par.get(id(cur))
         all_guarded = all_guarded and guarded
         ck.ob("R5.decided-policy-overrules-a-recorded-suspension", fn_construct(ex), guarded,
